@@ -6,6 +6,13 @@
  * All are stated for fragments of ONE stripe of the slice (K,M,LEN): header fields as the serializer writes them. */
 #ifndef FE_CONTRACTS_H
 #define FE_CONTRACTS_H
+/* REQ: a requires clause - asserted when the contract stands in for the callee, assumed when the
+ * contract is enforced on the real body */
+#ifdef FE_ENFORCE
+#define REQ(c, msg) __CPROVER_assume(c)
+#else
+#define REQ(c, msg) __CPROVER_assert(c, msg)
+#endif
 #ifndef FTS_NMAX
 #define FTS_NMAX (N + 1)
 #endif
@@ -21,15 +28,15 @@ static int c_hdr_orig(const char *f)
  * otherwise negative and *out == NULL.  Inputs not written. */
 static int c_fragments_to_string(int k, int m, char **frags, int nf, char **out, uint64_t *len)
 {
-  __CPROVER_assert(k == K && m == M, "fragments_to_string.requires: k, m of the instance");
-  __CPROVER_assert(__CPROVER_w_ok(out, sizeof *out) && __CPROVER_w_ok(len, sizeof *len), "fragments_to_string.requires: output pointers valid");
+  REQ(k == K && m == M, "fragments_to_string.requires: k, m of the instance");
+  REQ(__CPROVER_w_ok(out, sizeof *out) && __CPROVER_w_ok(len, sizeof *len), "fragments_to_string.requires: output pointers valid");
   char *slot[K]; int have = 0; int orig = -1;
   for (int i = 0; i < K; i++) slot[i] = NULL;
   *out = NULL;
   if (nf < k) return -1;
-  __CPROVER_assert(nf <= FTS_NMAX, "fragments_to_string.requires (slice): list length within the slice bound");
+  REQ(nf <= FTS_NMAX, "fragments_to_string.requires (slice): list length within the slice bound");
   for (int p = 0; p < FTS_NMAX; p++) if (p < nf) {
-    __CPROVER_assert(__CPROVER_r_ok(frags[p], FLEN), "fragments_to_string.requires: every listed fragment readable for fragment_len");
+    REQ(__CPROVER_r_ok(frags[p], FLEN), "fragments_to_string.requires: every listed fragment readable for fragment_len");
     int idx = c_hdr_idx(frags[p]), size = c_hdr_size(frags[p]);
     if (idx < 0 || size < 0) return -EBADHEADER;
     if (orig < 0) orig = c_hdr_orig(frags[p]);
@@ -37,12 +44,12 @@ static int c_fragments_to_string(int k, int m, char **frags, int nf, char **out,
     if (idx < k && !slot[idx]) { slot[idx] = frags[p]; have++; }
   }
   if (have != k) return -1;
-  __CPROVER_assert(orig == LEN, "fragments_to_string.requires (slice): fragments of the slice's stripe (orig_data_size)");
+  REQ(orig == LEN, "fragments_to_string.requires (slice): fragments of the slice's stripe (orig_data_size)");
   char *o = malloc(LEN);
   int off = 0, rem = LEN;
   for (int i = 0; i < K; i++) if (rem > 0) {
     int fs = c_hdr_size(slot[i]);
-    __CPROVER_assert(fs == BS, "fragments_to_string.requires (slice): fragments of the slice's stripe (payload size)");
+    REQ(fs == BS, "fragments_to_string.requires (slice): fragments of the slice's stripe (payload size)");
     int n = rem > fs ? fs : rem;
     for (int t = 0; t < BS; t++) if (t < n) o[off + t] = slot[i][80 + t];
     off += n; rem -= n;
@@ -56,14 +63,14 @@ static int c_fragments_to_string(int k, int m, char **frags, int nf, char **out,
  * index is not in [0,k+m) (or magic not native); -EINSUFFFRAGS iff more than m indexes are missing. */
 static int c_get_fragment_partition(int k, int m, char **frags, int nf, char **data, char **parity, int *missing)
 {
-  __CPROVER_assert(k == K && m == M, "get_fragment_partition.requires: k, m of the instance");
-  __CPROVER_assert(__CPROVER_w_ok(data, sizeof(char *) * K) && (M == 0 || __CPROVER_w_ok(parity, sizeof(char *) * M)), "get_fragment_partition.requires: slot arrays of k resp. m entries");
-  __CPROVER_assert(__CPROVER_w_ok(missing, sizeof(int) * (N + 1)), "get_fragment_partition.requires: missing list of k+m+1 entries");
+  REQ(k == K && m == M, "get_fragment_partition.requires: k, m of the instance");
+  REQ(__CPROVER_w_ok(data, sizeof(char *) * K) && (M == 0 || __CPROVER_w_ok(parity, sizeof(char *) * M)), "get_fragment_partition.requires: slot arrays of k resp. m entries");
+  REQ(__CPROVER_w_ok(missing, sizeof(int) * (N + 1)), "get_fragment_partition.requires: missing list of k+m+1 entries");
   for (int i = 0; i < K; i++) data[i] = NULL;
   for (int j = 0; j < M; j++) parity[j] = NULL;
-  __CPROVER_assert(nf <= FTS_NMAX, "get_fragment_partition.requires (slice): list length within the slice bound");
+  REQ(nf <= FTS_NMAX, "get_fragment_partition.requires (slice): list length within the slice bound");
   for (int p = 0; p < FTS_NMAX; p++) if (p < nf) {
-    __CPROVER_assert(__CPROVER_r_ok(frags[p], 80), "get_fragment_partition.requires: every listed fragment has a readable header");
+    REQ(__CPROVER_r_ok(frags[p], 80), "get_fragment_partition.requires: every listed fragment has a readable header");
     int idx = c_hdr_idx(frags[p]);
     if (idx < 0 || idx >= N) return -EBADHEADER;
     if (idx < K) data[idx] = frags[p]; else parity[idx - K] = frags[p];
@@ -79,13 +86,13 @@ static int c_get_fragment_partition(int k, int m, char **frags, int nf, char **d
 static int c_prepare_fragments_for_decode(int k, int m, char **data, char **parity, int *missing,
                                           int *orig, int *bs, int fragment_size, uint64_t *realloc_bm)
 {
-  __CPROVER_assert(k == K && m == M, "prepare_fragments_for_decode.requires: k, m of the instance");
-  __CPROVER_assert(fragment_size == FLEN, "prepare_fragments_for_decode.requires: fragment_size is the stripe's fragment length");
+  REQ(k == K && m == M, "prepare_fragments_for_decode.requires: k, m of the instance");
+  REQ(fragment_size == FLEN, "prepare_fragments_for_decode.requires: fragment_size is the stripe's fragment length");
   unsigned long long mbm = 0;
   int done = 0;
   for (int q = 0; q <= N; q++) if (!done) {
     if (missing[q] < 0) done = 1;
-    else { __CPROVER_assert(missing[q] < N, "prepare_fragments_for_decode.requires: missing indexes in range"); mbm |= 1ull << missing[q]; }
+    else { REQ(missing[q] < N, "prepare_fragments_for_decode.requires: missing indexes in range"); mbm |= 1ull << missing[q]; }
   }
   int o = -1, b = -1;
   for (int i = 0; i < N; i++) {
@@ -96,7 +103,7 @@ static int c_prepare_fragments_for_decode(int k, int m, char **data, char **pari
       f[59] = (char)0xcc; f[60] = 0x5e; f[61] = 0x0c; f[62] = 0x0b;
       *s = f; *realloc_bm |= 1ull << i;
     } else {
-      __CPROVER_assert(__CPROVER_r_ok(*s, FLEN), "prepare_fragments_for_decode.requires: supplied fragments readable for fragment_size");
+      REQ(__CPROVER_r_ok(*s, FLEN), "prepare_fragments_for_decode.requires: supplied fragments readable for fragment_size");
       if ((((unsigned long)*s) & 15) != 0) {
         char *f = malloc(FLEN);
         for (int t = 0; t < FLEN; t++) f[t] = (*s)[t];
